@@ -2,6 +2,7 @@ import Rtsp.Proofs.Ledger.ErrorClose
 import Rtsp.Proofs.Ledger.Release
 import Rtsp.Proofs.Ledger.Isolation
 import Rtsp.Proofs.Ledger.Timeouts
+import Rtsp.Proofs.Ledger.IsolationTables
 /-
 # C11 — the server survives hostile control connections and cleans up after them
 
@@ -190,6 +191,28 @@ theorem other_conns_unaffected (cfg : Config) (es : List Event) (a b : ConnId) (
   have := same_step ⟨hI, hab, hpts, hsep, hl⟩ i hname htun
   exact ⟨this.conn, this.sess⟩
 
+/-- **… and what `b`'s session owns in the resource tables** — its UDP registrations, its reader
+slot, its active-reader entry, its write queue — **is unchanged as well**, provided no other
+session has a media on a client port that `b`'s session has registered (`NoCollision`; all peers
+share one IP address in the model).  Without that hypothesis the statement is false:
+`udp_port_collision_removes_registration` below. -/
+theorem other_conns_tables_unaffected (cfg : Config) (es : List Event) (a : ConnId) (x : SessId) (i : Input)
+    (hsep : Sep (run (init cfg) es).1 a (some x))
+    (hlive : (findSess (run (init cfg) es).1 x).isSome)
+    (hname : ∀ r, i = .req r → r.sess ≠ .id x)
+    (hn : NoCollision (run (init cfg) es).1 x)
+    (htun : ∀ k f, i = .httpPost k f →
+      ∀ e, (run (init cfg) es).1.httpRead.find? (·.2 == k) = some e → Sep (run (init cfg) es).1 e.1 (some x)) :
+    SameT x (run (init cfg) es).1 (step (run (init cfg) es).1 (.input a i)).1 := by
+  have hI := invariant_reachable cfg es
+  have hl : x < (run (init cfg) es).1.nextSess := by
+    cases hf : findSess (run (init cfg) es).1 x with
+    | none => rw [hf] at hlive; cases hlive
+    | some s =>
+      obtain ⟨hs, e⟩ := findSess_some hf
+      rw [← e]; exact hI.sessLt s hs
+  exact sameT_step hI a i x hsep hname hl hn htun
+
 /-! ### non-vacuity -/
 
 /-- a fresh connection, a bogus PLAY: answered 454 and closed -/
@@ -301,5 +324,22 @@ def udpRecorder : List Event :=
 example : ((run (init {}) udpRecorder).1.conns.map fun c => (c.id, c.armed)) = [(0, false)] ∧
     (run (init {}) (udpRecorder ++ [.input 0 .idle])).2 = (run (init {}) udpRecorder).2 ∧
     (step (run (init {}) udpRecorder).1 (.sessTimeout 0)).2 = [Out.connClose 0, Out.sessClose 0] := by decide
+
+
+/-- two UDP players on different client ports: the hypothesis `NoCollision` of
+`other_conns_tables_unaffected` holds for session 0, whose RTCP registration survives the
+tear-down of session 1 (compare `udp_port_collision_removes_registration`) -/
+def twoUdpPlayers : List Event :=
+  [.accept 0, .accept 1,
+   .input 1 (.req victimSetup), .input 1 (.req { method := .play, sess := .id 0 }),
+   .input 0 (.req attackerSetup0), .input 0 (.req { method := .play, sess := .id 1 })]
+
+example : NoCollision (run (init {}) twoUdpPlayers).1 0 := by
+  unfold NoCollision PortsClear Clear
+  decide
+
+example : (run (init {}) twoUdpPlayers).1.udpRtcp = [(6001, 1), (5001, 0)] ∧
+    (run (init {}) (twoUdpPlayers ++ [.input 0 (.req { method := .teardown, sess := .id 1 })])).1.udpRtcp = [(5001, 0)] := by
+  decide
 
 end Rtsp.Ledger.C11
